@@ -15,6 +15,8 @@ import Pcore.Model.GoMap
 | `Get` / `GetOrDefault` / `Includes`   :224-241  | `SH.get` / `SH.includes`     |
 | `Keys` / `Values` / `Len`             :243-290  | `SH.keys` / `SH.values` / `SH.len` |
 | `Merge`                               :251-255  | `SH.merge`                   |
+| `Equals`                              :197-210  | `SH.equals`                  |
+| `Empty` / `AllPair` / `AnyPair`       :111-127, 212 | `SH.empty` / `allPair` / `anyPair` |
 | `Put`                                 :257-272  | `SH.put`                     |
 | `PutAll`                              :274-278  | `SH.putAll`                  |
 
@@ -110,6 +112,28 @@ def pairs (h : SH β) : List (String × β) := h.entries
 def keys (h : SH β) : List String := h.entries.map (·.1)
 def values (h : SH β) : List β := h.entries.map (·.2)
 def len (h : SH β) : Nat := h.entries.length
+
+/-- the loop of `Equals`: `oi, ok := oh.index[e.key]; if !(ok && px.Equals(e.value, oh.entries[oi].value)) { return false }`
+    (`none` = index out of range) -/
+def equalsLoop [DecidableEq β] (o : SH β) : List (String × β) → Option Bool
+  | [] => some true
+  | e :: es =>
+    match GoMap.get o.index e.1 with
+    | some oi =>
+      match o.entries[oi]? with
+      | some x => if x.2 = e.2 then equalsLoop o es else some false
+      | none => none
+    | none => some false
+
+/-- `Equals`: same number of entries and every entry of the receiver found, with an equal value, through the
+    other hash's index — the order of the entries does not matter -/
+def equals [DecidableEq β] (h o : SH β) : Option Bool :=
+  if h.entries.length ≠ o.entries.length then some false else equalsLoop o h.entries
+
+/-- `Empty`, `EachKey`, `EachValue`, `AllPair`, `AnyPair` read the entries in order -/
+def empty (h : SH β) : Bool := h.entries.isEmpty
+def allPair (p : String → β → Bool) (h : SH β) : Bool := h.entries.all fun e => p e.1 e.2
+def anyPair (p : String → β → Bool) (h : SH β) : Bool := h.entries.any fun e => p e.1 e.2
 
 end SH
 
